@@ -5,8 +5,8 @@
     the union reach the base as well as the cache."
    Statements only; proofs in Proofs/CacheProof.v.  Models: Model/Cache.v, Model/Union.v (UnionFile), MemMapFs
    layers (Model/MemFs.v, Model/MemFile.v). *)
-From AF Require Import Lib.Bytes Lib.Path Lib.Ops Gen.Consts Model.MemFile Model.MemFs Model.Union Model.Cow
-  Model.Cache Model.Stack Proofs.MemFsBasics Proofs.CacheProof.
+From AF Require Import Lib.Bytes Lib.Path Lib.Ops Gen.Consts Model.MemFile Model.MemFs Model.WfOps Model.Union Model.Cow
+  Model.Cache Model.Stack Proofs.MemFsBasics Proofs.MemFsWF Proofs.CacheProof Proofs.CacheInv Proofs.CacheInvPath Proofs.CacheInvMain.
 Local Open Scope Z_scope.
 
 (* The two handles of a UnionFile are coherent [PairCoh]: equal offset, equal closed / read-only flags, and the
@@ -25,13 +25,99 @@ Theorem C11_union_handle_coherent :
 Proof. exact pair_coh_preserved. Qed.
 Print Assumptions C11_union_handle_coherent.
 
-(* The invariant over the whole handle table of the caching filesystem: every UnionFile with both handles is
-   coherent.  A handle method through the cache on slot i preserves it for EVERY slot, provided the other
-   UnionFiles are [Aligned] with slot i: other inner handles, and "same base file iff same cached file".
-   Full strength (not proved): Aligned is itself an invariant of cache_step from the empty table (Open /
-   Create / OpenFile hand out fresh inner handles on the nodes the same name denotes in both layers; Rename /
-   Remove keep node identities) — a simulation between the two path maps. *)
-Theorem C11_table_coherent_partial :
+(* ---- THE INVARIANT (Proofs/CacheInv.v).  [CInv (sb, sl, tbl)]: both MemMapFs layers satisfy the invariant WF of
+   MemMapFs (C01) and there is a pairing of layer nodes with base nodes — a partial injection — such that
+     * every name of the cache layer denotes, in the base, the partner of the layer's node, and a base name
+       whose node has a partner denotes that partner in the layer (a simulation between the two path maps:
+       the layer's tree is part of the base's tree);
+     * partners are of the same kind and hold the same bytes; directories of the base are empty;
+     * every UnionFile of the handle table has a base handle and a layer handle with equal offset / closed /
+       read-only flags on partners (handles on directories cannot write); base-only and layer-only handles
+       are read-only or closed; different table slots use different inner handles.
+   It gives [Coh] (every UnionFile coherent), [Aligned] for every slot — the hypothesis of the former
+   C11_table_coherent_partial — and [LayerInBase]: "each file present in the cache layer exists in the base with
+   identical content". ---- *)
+Theorem C11_invariant_gives :
+  forall st, CInv st -> Coh st /\ (forall i, Aligned st i) /\ LayerInBase st.
+Proof. intros st C. split; [now apply CInv_Coh|]. split; [intros i; now apply CInv_Aligned | now apply CInv_layer_in_base]. Qed.
+Print Assumptions C11_invariant_gives.
+
+(* the empty pair satisfies it *)
+Theorem C11_invariant_initial : CInv (m_init, m_init, []).
+Proof. exact CInv_init. Qed.
+Print Assumptions C11_invariant_initial.
+
+(* ... and so does every COHERENT PAIR under an empty handle table ("starting from any coherent (base, cache) pair"):
+   both layers well-formed (WF: reachable by well-formed programs, C01), the directories of the base empty
+   [dirs_empty_b, computable], each name of the cache layer a name of the base of the same kind with the same
+   content [LayerInBase] *)
+Theorem C11_invariant_coherent_pair :
+  forall sb sl : mst, WF sb -> WF sl -> dirs_empty_b sb = true -> LayerInBase (sb, sl, []) -> CInv (sb, sl, []).
+Proof. exact CInv_of_coherent. Qed.
+Print Assumptions C11_invariant_coherent_pair.
+
+(* EVERY well-formed call through the cache preserves it: all 25 operations (Create, Mkdir, MkdirAll, Open, OpenFile
+   with every well-formed flag word, Remove, RemoveAll, Rename incl. whole subtrees and into directories the
+   cache does not hold yet, Stat, Chmod, Chown, Chtimes, and the 13 handle methods on every kind of slot), every
+   cache duration, every value of time.Now(), every outcome of cacheStatus (miss / stale / hit; "local" cannot
+   arise), every file size.  [cwf_op dur now st o] (Proofs/CacheInvMain.v, computable): o is well-formed for the
+   BASE's current tree in the sense of C01 (WfOps.wf_op: the ordinary POSIX preconditions; Read/ReadAt buffer
+   length >= 0; flag words without O_APPEND), and o is not OpenFile of a base DIRECTORY that cacheStatus does
+   not serve as a hit — the one call outside the class, a defect of cacheOnReadFs.go: C11_openfile_uncached_dir_refuted. *)
+Theorem C11_invariant_step :
+  forall (dur now : Z) (st : mst * mst * list chandle) (o : op),
+  CInv st -> cwf_op dur now st o = true -> CInv (fst (cache_step m_step m_step dur now st o)).
+Proof. exact CInv_step. Qed.
+Print Assumptions C11_invariant_step.
+
+(* FULL STRENGTH of the table clause (formerly C11_table_coherent_partial, whose hypothesis Aligned is now a
+   consequence of the invariant): after EVERY call of EVERY well-formed sequence of calls through the cache
+   (each call with its own time.Now()), from ANY pair that satisfies the invariant — in particular from the
+   empty pair — every UnionFile of the table is coherent, every slot is aligned with every other, and each file
+   (each name) of the cache layer exists in the base with the same kind and identical content.
+   Nothing is missing for the class of well-formed calls; outside it: C11_openfile_uncached_dir_refuted. *)
+Theorem C11_table_coherent :
+  forall (dur : Z) (steps1 steps2 : list (Z * op)) (st : mst * mst * list chandle),
+  CInv st -> cwf_seq dur st (steps1 ++ steps2) = true ->
+  Coh (crun dur st steps1) /\ (forall i, Aligned (crun dur st steps1) i) /\ LayerInBase (crun dur st steps1).
+Proof.
+  intros dur steps1 steps2 st C Hwf. pose proof (CInv_run_prefix dur steps1 steps2 st C Hwf) as C'.
+  split; [now apply CInv_Coh|]. split; [intros i; now apply CInv_Aligned | now apply CInv_layer_in_base].
+Qed.
+Print Assumptions C11_table_coherent.
+
+Theorem C11_coherent_from_empty :
+  forall (dur : Z) (steps : list (Z * op)),
+  cwf_seq dur (m_init, m_init, []) steps = true ->
+  Coh (crun dur (m_init, m_init, []) steps) /\ (forall i, Aligned (crun dur (m_init, m_init, []) steps) i) /\
+  LayerInBase (crun dur (m_init, m_init, []) steps).
+Proof. exact cache_coherent_from_empty. Qed.
+Print Assumptions C11_coherent_from_empty.
+
+(* the second clause of the property: "reading any file through the caching filesystem returns what the base
+   holds".  In every state of the invariant, for every name (any spelling) that denotes a regular file of the
+   base, every cache duration and every time: Open through the cache returns a fresh slot holding a layer-only,
+   read-only handle at offset 0 on a regular file of the layer whose bytes are the base's (served from the cache
+   on a hit, copied first on a miss or a stale entry — the copy cannot fail) ... *)
+Theorem C11_read_returns_base :
+  forall (dur now : Z) (sb sl : mst) (tbl : list chandle) (p : str) (fb : nat) (nb : node),
+  CInv (sb, sl, tbl) ->
+  lookup sb (normalize_path p) = Some fb -> get_node sb fb = Some nb -> ndir nb = false ->
+  serves (fst (cache_step m_step m_step dur now (sb, sl, tbl) (Open p)))
+         (snd (cache_step m_step m_step dur now (sb, sl, tbl) (Open p))) tbl (ndata nb).
+Proof. exact read_through_cache. Qed.
+Print Assumptions C11_read_returns_base.
+(* ... and the first Read on that slot returns the base's bytes, as many as the buffer takes *)
+Theorem C11_read_after_open :
+  forall (dur now : Z) (st' : mst * mst * list chandle) (r : res) (tbl : list chandle) (d : bytes) (n : Z),
+  serves st' r tbl d -> d <> [] -> 0 < n ->
+  snd (cache_step m_step m_step dur now st' (HRead (length tbl) n)) = RData (slice d 0 (Z.min n (zlen d))) None.
+Proof. exact read_after_open. Qed.
+Print Assumptions C11_read_after_open.
+
+(* the one-step lemma the partial theorem consisted of, for ANY state (not necessarily one that satisfies the
+   invariant): Coh is preserved by a handle method on slot i when the other slots are aligned with it *)
+Theorem C11_table_coherent_step :
   forall (dur now : Z) (sb sl : mst) (tbl : list chandle) (i : nat) (u : ufile) (bh lh : nat) (o : op),
   Coh (sb, sl, tbl) -> Aligned (sb, sl, tbl) i ->
   nth_error tbl i = Some (HU u) -> ubase u = Some bh -> ulayer u = Some lh ->
@@ -39,7 +125,7 @@ Theorem C11_table_coherent_partial :
   (forall i n k, o = HReadAt i n k -> union_readat_seeks_base = 0) ->
   Coh (fst (cache_step m_step m_step dur now (sb, sl, tbl) o)).
 Proof. exact Coh_preserved_partial. Qed.
-Print Assumptions C11_table_coherent_partial.
+Print Assumptions C11_table_coherent_step.
 
 (* Mutators through the cache call the base first and, unless it failed, the layer with the same call.
    [base_then_layer]: the base's error (or panic) is the result and the layer is not called; otherwise the
@@ -117,7 +203,10 @@ Proof.
 Qed.
 Print Assumptions C11_mutators_reach_both.
 
-(* ---- the ReadAt clause is refuted for unionFile.go as long as its ReadAt seeks the base (D10) ---- *)
+(* ---- the ReadAt clause, as a function of the source: the two layers end up different exactly when unionFile.go's
+   ReadAt seeks the base handle (D10).  Today's source (fix d073084) does not: the constant is 0, the right-hand
+   side is false, the layers agree — and the invariant theorems above use union_readat_fixed.  The Example is a
+   regression sentinel: it holds for either value of the constant; with the old ReadAt it says "refuted". ---- *)
 Definition p_f : str := [47; 102]%N.                                        (* /f *)
 Definition hello : bytes := [104;101;108;108;111;32;119;111;114;108;100]%N. (* "hello world" *)
 Definition d10_items : list item :=
@@ -161,3 +250,56 @@ Example C11_ex_write_both :
   (r, map e_data (snapshot sb), map e_data (snapshot sl)) =
   (RCount 2 None, [[]; [104;101;108;88;89;32;119;111;114;108;100]%N], [[]; [104;101;108;88;89;32;119;111;114;108;100]%N]).
 Proof. vm_compute. reflexivity. Qed.
+
+(* ---- the invariant theorems are not vacuous: a base built by a well-formed program (a directory /d with a file,
+   an empty directory /e, a file /g) under an EMPTY cache satisfies CInv; a sequence of 20 calls through the
+   cache — first read of an uncached file, an O_RDWR UnionFile, writes at offsets, the rename of the directory
+   /d into /e (which the cache does not hold: the layer creates /e on the way), O_CREATE, Chmod on an uncached
+   file (copied first), Remove, RemoveAll, MkdirAll, Create below new directories, Truncate — is well-formed
+   [cwf_seq, by computation], so C11_table_coherent applies to it and to each of its prefixes ---- *)
+Definition p_d : str := [47; 100]%N.                                   (* /d *)
+Definition p_df : str := [47; 100; 47; 102]%N.                         (* /d/f *)
+Definition p_e : str := [47; 101]%N.                                   (* /e *)
+Definition p_g : str := [47; 103]%N.                                   (* /g *)
+Definition p_ed : str := [47; 101; 47; 100; 50]%N.                     (* /e/d2 *)
+Definition p_edf : str := [47; 101; 47; 100; 50; 47; 102]%N.           (* /e/d2/f *)
+Definition p_new : str := [47; 110]%N.                                 (* /n *)
+Definition p_xyz : str := [47; 120; 47; 121; 47; 122]%N.               (* /x/y/z *)
+Definition p_xyzw : str := [47; 120; 47; 121; 47; 122; 47; 119]%N.     (* /x/y/z/w *)
+Definition c11_base_prog : list op :=
+  [Mkdir p_d 493; Create p_df; HWrite 0 hello; HClose 0; Mkdir p_e 493; Create p_g; HWrite 1 [120; 121]%N; HClose 1].
+Definition c11_base : mst := Eval vm_compute in fst (run_steps m_step m_init c11_base_prog).
+Definition c11_steps : list (Z * op) :=
+  [(BIG, Open p_df); (BIG + 1, HRead 0 100); (BIG + 2, HClose 0);
+   (BIG + 3, OpenFile p_df 2 0); (BIG + 4, HWriteAt 1 [88; 89]%N 3); (BIG + 5, HSeek 1 0 2); (BIG + 6, HWrite 1 [33]%N);
+   (BIG + 7, Rename p_d p_ed); (BIG + 8, Stat p_edf); (BIG + 9, HReadAt 1 5 0);
+   (BIG + 10, OpenFile p_new 66 420); (BIG + 11, HWrite 2 [97; 98; 99]%N);
+   (BIG + 12, Chmod p_g 384); (BIG + 13, Remove p_g); (BIG + 14, MkdirAll p_xyz 493); (BIG + 15, Create p_xyzw);
+   (BIG + 16, HTruncate 3 10); (BIG + 17, RemoveAll p_e); (BIG + 18, HWrite 1 [90]%N); (BIG + 19, HClose 1)].
+
+Example C11_ex_start : CInv (c11_base, m_init, []).
+Proof. apply CInv_fresh_cache; [exact (MemFsInv.index_mirrors_map c11_base_prog eq_refl) | vm_compute; reflexivity]. Qed.
+Example C11_ex_sequence_wf : cwf_seq 0 (c11_base, m_init, []) c11_steps = true /\ cwf_seq 1000 (c11_base, m_init, []) c11_steps = true.
+Proof. vm_compute. split; reflexivity. Qed.
+(* ... and what the two layers hold at the end: the base everything, the cache layer what went through it; the
+   file /e/d2/f was removed with /e while the UnionFile on it stayed open and was written once more *)
+Example C11_ex_sequence_result :
+  let '(sb, sl, tbl) := crun 0 (c11_base, m_init, []) c11_steps in
+  (map e_path (snapshot sb), map e_path (snapshot sl), length tbl) =
+  ([[47]; [47;110]; [47;120]; [47;120;47;121]; [47;120;47;121;47;122]; [47;120;47;121;47;122;47;119]]%N,
+   [[47]; [47;110]; [47;120]; [47;120;47;121]; [47;120;47;121;47;122]; [47;120;47;121;47;122;47;119]]%N, 4%nat).
+Proof. vm_compute. reflexivity. Qed.
+
+(* ---- the call outside the class (a defect of cacheOnReadFs.go, reported; corpus/C11/openfile-uncached-dir.case):
+   OpenFile(O_RDONLY) of a DIRECTORY the cache does not hold.  CacheOnReadFs.OpenFile sends every miss / stale
+   name through copyFileToLayer, which copies a directory like a file: 0 bytes read, Size() of the directory
+   differs, EIO.  On the base alone the same call returns a handle.  (CacheOnReadFs.copyToLayer, used by Open /
+   Chtimes / Chmod / Chown / Rename, makes the directory in the layer instead: fix e325f56.) ---- *)
+Example C11_openfile_uncached_dir_refuted :
+  exists (st : mst * mst * list chandle) (o : op),
+    CInv st /\ WfOps.wf_op (fst (fst st)) o = true /\ cwf_op 0 BIG st o = false /\
+    snd (cache_step m_step m_step 0 BIG st o) = RErr (E KEIO) /\
+    snd (m_step (fst (fst st)) o) = RHandle 2.
+Proof.
+  exists (c11_base, m_init, []), (OpenFile p_d 0 0). split; [exact C11_ex_start|]. vm_compute. repeat split; reflexivity.
+Qed.
